@@ -57,6 +57,7 @@ ProdValue(Pp, kids, e) ==
   THEN LET ek == kids[Pp.syms[Pp.esym].i]
        IN <<"n", Pp.tag, <<"e", [error |-> ek.v.error, dropped |-> ek.v.dropped,
                                  lo |-> ek.lo, hi |-> ek.hi]>> >> \o hv
+  ELSE IF Pp.unit THEN <<"u">>          \* user code of a ()-typed nonterminal: run for its effect only
   ELSE <<"n", Pp.tag>> \o hv
 
 Fails(Pp, kids, e) ==
